@@ -1014,6 +1014,13 @@ pub fn part_evalord(out: &mut Out, _o: &Opts) {
             emit_eval(out, f, o);
         }
     }
+    // consecutive parses in one thread under orderings of equal length that share their first and last entries, or all but one
+    let four = |l: [&str; 4]| -> Vec<(String, usize)> { l.iter().enumerate().map(|(i, n)| (n.to_string(), i)).collect() };
+    for f in ["b & -c", "a & -b | c & -d", "exists b # (a & b) | (c & d)", "[a, b, c, d] = 2", "b ^ c"] {
+        for o in [["a", "b", "c", "d"], ["a", "c", "b", "d"], ["a", "b", "c", "d"], ["d", "b", "c", "a"], ["a", "b", "d", "c"], ["b", "a", "c", "d"], ["a", "c", "b", "d"]] {
+            emit_eval(out, f, &four(o));
+        }
+    }
 }
 
 /// many variables, long lists, deep nesting: sizes that small exhaustive and random inputs never reach
@@ -1042,6 +1049,21 @@ pub fn part_evalwide(out: &mut Out, o: &Opts) {
             nest.push_str("))");
         }
         emit_eval(out, &nest, &[]);
+    }
+    // chains of plain literals with a complementary or a repeated literal at every distance (6 .. 33 literals), both connectives
+    for n in [6usize, 7, 8, 9, 12, 16, 33] {
+        let v: Vec<String> = (0..n).map(|i| format!("l{i}")).collect();
+        for (i, j, neg) in [(0usize, n - 1, true), (n - 1, 0, true), (n / 2, n / 2 + 1, true), (0, 1, true), (1, n - 2, false), (0, n - 1, false)] {
+            for op in [" & ", " | "] {
+                let mut lits: Vec<String> = v.iter().enumerate().map(|(k, x)| if k % 3 == 1 { format!("-{x}") } else { x.clone() }).collect();
+                // literal j repeats variable i, in the same or in the opposite polarity
+                let base = v[i].clone();
+                let was_neg = i % 3 == 1;
+                lits[j] = if was_neg != neg { format!("-{base}") } else { base };
+                emit_eval(out, &lits.join(op), &[]);
+                emit_eval(out, &format!("({}) {op} ({})", lits[..n / 2].join(op), lits[n / 2..].join(op)), &[]);
+            }
+        }
     }
     // counting over longer lists (the construction is exponential in the list length: up to 14)
     for k in [8usize, 11, 14] {
